@@ -104,9 +104,9 @@ def handleMsgLayer (args : List String) : String :=
   | el :: ead :: mid :: tok :: draws :: evs =>
     match el.toNat?, ead.toNat?, mid.toNat?, tok.toNat?, parseDraws draws, evs.mapM parseEvent with
     | some el, some ead, some mid, some tok, some draws, some evs =>
-      let s0 := init { exchangeLifetime := el, emptyAckDelay := ead } mid tok draws
+      let s0 := init { exchangeLifetime := el, emptyAckDelay := ead } mid tok (fun i => draws.getD i 0)
       let (gs, tie, sf) := runScript s0 [] evs
-      (if sf.starved then "STARVED " else "") ++ (if tie then "TIE " else "") ++ "|".intercalate gs
+      (if sf.drawIdx > draws.length then "STARVED " else "") ++ (if tie then "TIE " else "") ++ "|".intercalate gs
     | _, _, _, _, _, _ => "bad-op"
   | _ => "bad-op"
 
